@@ -39,6 +39,8 @@ class C40(Prop):
     budget = {'quick': 5000, 'thorough': 40000}
     search_budget = {'quick': 6000, 'thorough': 40000}
     rule = ('case = (max, list of groups of ops); jobs are coroutines `async with sem.acquire_manager(w): await gate`; ops: a=spawn a job, '
+            '(with an optional j: the task is cancelled at its j-th suspension, wherever that is — a task-step hook counts every time the '
+            'task hands control back to the loop, so every await point of acquire, present or future, can be hit), '
             'r=open its gate, f=open its gate with an exception, c=Task.cancel() issued directly, cs=Task.cancel() issued from a callback '
             'queued behind the other actions of the group; the actions of one group are issued without running the loop in between (same loop '
             'iteration), then the loop runs to quiescence and (sem.value, ids inside the body, order of sem.events, ids that hit the '
@@ -62,6 +64,8 @@ class C40(Prop):
             self.max, self.value = m, m
             self.waiters, self.granted, self.holders = [], [], {}
             self.seq = 0
+            self.cnt = {}       # task -> suspensions left before its injected cancellation
+            self.late = []      # tasks whose injected cancellation is due
 
         def _drain(self):
             while self.waiters and self.value >= self.waiters[0][0]:
@@ -72,9 +76,15 @@ class C40(Prop):
         def op(self, o):
             k = o[0]
             if k == 'a':
-                _, i, w = o
+                i, w = o[1], o[2]
+                self.cnt.pop(i, None)
                 if w > self.max:
                     return
+                if len(o) > 3:          # cancel at its o[3]-th suspension; after this block it is suspended for the first time
+                    if o[3] == 1:
+                        self.late.append(i)
+                    else:
+                        self.cnt[i] = o[3] - 1
                 if self.value >= w:
                     self.value -= w
                     self.holders[i] = w
@@ -99,9 +109,20 @@ class C40(Prop):
                     self.waiters = [e for e in self.waiters if e[2] != i]
 
         def settle(self):
-            for w, i in self.granted:
-                self.holders[i] = w
-            self.granted = []
+            while self.late or self.granted:
+                if self.late:
+                    late, self.late = self.late, []
+                    for i in late:
+                        if i in self.active():
+                            self.op(['c', i])
+                else:
+                    w, i = self.granted.pop(0)
+                    self.holders[i] = w
+                    if i in self.cnt:
+                        self.cnt[i] -= 1
+                        if self.cnt[i] == 0:
+                            del self.cnt[i]
+                            self.late.append(i)
 
         def active(self):
             return set(self.holders) | {i for _, _, i in self.waiters} | {i for _, i in self.granted}
@@ -119,7 +140,7 @@ class C40(Prop):
         """order in which the blocks of a group execute: directly issued actions in order, then the `cs` cancellations"""
         return [o for o in g if o[0] != 'cs'] + [o for o in g if o[0] == 'cs']
 
-    def _random_group(self, rng, s, max_tasks, p_multi):
+    def _random_group(self, rng, s, max_tasks, p_multi, p_step=0.0):
         n_ops = 1 if rng.random() > p_multi else rng.choice([2, 2, 3])
         used = set()
         g = []
@@ -150,7 +171,12 @@ class C40(Prop):
                 w = s.max if r < 0.25 else 1 if r < 0.45 else rng.randint(1, s.max)
                 if rng.random() < 0.02:
                     w = s.max + 1                       # hits `assert n <= self.max`
-                g.append(['a', i, w])
+                if rng.random() < 0.05:
+                    w = 0
+                if rng.random() < p_step:
+                    g.append(['a', i, w, rng.choice([1, 1, 2, 3])])   # cancelled at its j-th await point, whatever that is
+                else:
+                    g.append(['a', i, w])
             elif kind in ('r', 'f'):
                 i = rng.choice(holders)
                 g.append([kind, i])
@@ -167,10 +193,11 @@ class C40(Prop):
         max_tasks = rng.choice([3, 4, 5, 6])
         n = rng.choice([3, 5, 7, 10, 14])
         p_multi = rng.choice([0.0, 0.3, 0.6])
+        p_step = rng.choice([0.0, 0.15, 0.3])
         groups = []
         s = self._Sim(m)
         for _ in range(n):
-            g = self._random_group(rng, s, max_tasks, p_multi)
+            g = self._random_group(rng, s, max_tasks, p_multi, p_step)
             if not g:
                 break
             groups.append(g)
@@ -191,7 +218,8 @@ class C40(Prop):
             nxt = []
             if len(active) < max_tasks:
                 i = min(j for j in range(max_tasks) if j not in active)
-                nxt += [[['a', i, w]] for w in range(1, m + 1)]
+                nxt += [[['a', i, w]] for w in range(0, m + 1)]
+                nxt += [[['a', i, w, j]] for w in range(1, m + 1) for j in (1, 2)]     # cancelled at its 1st / 2nd await point
             holders = sorted(s.holders)
             waiters = [i for _, _, i in s.waiters]
             nxt += [[['r', i]] for i in holders]
@@ -217,10 +245,10 @@ class C40(Prop):
 
     def cases(self, rng, n, tier):
         if tier == 'thorough':
-            # every protocol-respecting sequence of exactly 7 (max 1) / 6 (max 2) / 5 (max 3) groups over <= 4 tasks, where a group is
-            # a single op or a same-iteration pair (exit;cancel / exit;cancel-soon / cancel;exit / exit;exit / exit;acquire /
-            # acquire;exit); shorter ones are prefixes
-            for m, length in ((1, 7), (2, 6), (3, 5)):
+            # every protocol-respecting sequence of exactly 5 (max 1) / 4 (max 2, 3) groups over <= 4 tasks, weights 0..max, where a
+            # group is a single op (acquire possibly with a cancellation at its 1st / 2nd suspension) or a same-iteration pair
+            # (exit;cancel / exit;cancel-soon / cancel;exit / exit;exit / exit;acquire / acquire;exit); shorter ones are prefixes
+            for m, length in ((1, 5), (2, 4), (3, 4)):
                 yield from self._exhaustive(m, length, 4)
         else:
             for m in (1, 2):
@@ -238,6 +266,8 @@ class C40(Prop):
     _NAMES = {'a': 'acquire', 'r': 'release', 'f': 'fail', 'c': 'cancel', 'cs': 'cancel'}
 
     def model_lines(self, c):
+        # `acquire i w j`: the task is cancelled at its j-th suspension (in the model: 1st = in `event.wait()` if it had to queue,
+        # else at the gate inside the body; the fast path of `acquire` has no suspension point)
         out = ['reset', f"max {c['max']}"]
         for g in c['groups']:
             out.append(';'.join(' '.join([self._NAMES[o[0]]] + [str(x) for x in o[1:]]) for o in self._ordered(g)))
@@ -268,6 +298,7 @@ class C40(Prop):
             arrival = []     # (weight, seq, id) of jobs that did not enter at once (fallback ordering only)
             seq = [0]
             n_release = [0]
+            stepped_ids = set()
             cur_group = [0]
             real_release = sem.release
 
@@ -321,7 +352,18 @@ class C40(Prop):
                     if o[0] == 'a':
                         gen[i] = gen.get(i, 0) + 1
                         weights[i] = o[2]
-                        tasks[i] = s.spawn(i, job(i, o[2], s.gate((i, gen[i]))), settle=False)
+                        cancel_at = o[3] if len(o) > 3 else 0
+                        stepped_ids.discard(i)
+                        if cancel_at:
+                            stepped_ids.add(i)
+                            info['step_cancel'] = info.get('step_cancel', 0) + 1
+
+                        def on_suspend(n, i=i, g_=gen[i], cancel_at=cancel_at):
+                            if n == cancel_at and gen[i] == g_:
+                                where = 'body' if i in inside else 'acquire'
+                                info['step_cancel_' + where] = info.get('step_cancel_' + where, 0) + 1
+                                s.loop.call_soon(tasks[i].cancel)
+                        tasks[i] = s.spawn(i, aloop.stepped(job(i, o[2], s.gate((i, gen[i]))), on_suspend), settle=False)
                         all_tasks.append(tasks[i])
                         spawned.append(i)
                     elif o[0] == 'r':
@@ -341,8 +383,12 @@ class C40(Prop):
                         else:
                             s.cancel_soon(i)
                 before = n_release[0]
+                sb = info.get('step_cancel_body', 0)
                 s.settle()
+                exits += info.get('step_cancel_body', 0) - sb
                 info['handback'] += max(0, n_release[0] - before - exits)
+                # tasks with an injected step-cancellation that are gone now (observed on the real run)
+                info.setdefault('step_done', {})[gk] = [i for i, t in tasks.items() if i in stepped_ids and t.done()]
                 asserted = []
                 for i in spawned:
                     t = tasks[i]
@@ -400,7 +446,7 @@ class C40(Prop):
             for i in a:
                 if weights[i] <= m:
                     return f'{at}: acquire({weights[i]}) of task {i} raised AssertionError although max is {m}'
-            alive -= gone | set(a)
+            alive -= gone | set(a) | set((info.get('step_done') or {}).get(k, []))
             for i in alive:
                 if weights[i] > m:
                     return f'{at}: acquire({weights[i]}) with max {m} did not raise'
@@ -431,13 +477,18 @@ class C40(Prop):
                 tags.append(k)
         if info.get('handback'):
             tags.append('granted-then-cancelled(hand-back)')
+        for k2, name in (('step_cancel', 'cancel-at-jth-await-requested'), ('step_cancel_acquire', 'step-cancel-hit-inside-acquire'),
+                         ('step_cancel_body', 'step-cancel-hit-inside-body')):
+            if info.get(k2):
+                tags.append(name)
         if any(o[0] == 'f' for g in c['groups'] for o in g):
             tags.append('exit-by-exception')
         if any('a=' in l and not l.endswith('a=') for l in out):
             tags.append('assertion')
         if 'err' in out:
             tags.append('protocol-err')
-        nontrivial = info.get('queued') or info.get('cancel_waiter') or info.get('cancel_holder')
+        nontrivial = (info.get('queued') or info.get('cancel_waiter') or info.get('cancel_holder') or info.get('step_cancel_acquire')
+                      or info.get('step_cancel_body'))
         if not nontrivial:
             tags.append('no-contention-no-cancel')
         return (key if nontrivial else None, tags)
